@@ -27,17 +27,36 @@ Theorem C04_other_host_variables_invisible : forall h s adds k v,
 Proof. exact initial_env_ignores_other_var. Qed.
 Print Assumptions C04_other_host_variables_invisible.
 
-(* $WORK after setup holds exactly the archive's files (last entry of a name wins; an entry named
+(* $WORK after setup holds exactly the archive's files (the last entry of a name wins; an entry named
    $WORK/p is the file p), the directories leading to them, and .tmp; nothing is unpacked outside
-   — provided setup() expands the entry names with the initial environment, which is what the
-   generated constant says about the source now. *)
+   and no entry name leaves the work directory — provided setup() expands the entry names with the
+   initial environment and refuses names that are not below $WORK, which is what the generated
+   constants say about the source now. *)
 Theorem C04_workdir_exact : forall cfg progs sched s p ss e t o,
-  names_see_env cfg = entry_names_see_env ->
+  names_see_env cfg = entry_names_see_env -> names_contained cfg = entry_names_contained ->
   nth_error progs s = Some p -> nth_error (scripts (run cfg progs (init progs) sched)) s = Some ss ->
   In (EvSetup e t o) (obs ss) ->
-  o = [] /\ forall q, tree_get t q = expected_node (archive p) q.
+  o = [] /\ esc_index p = None /\ forall q, tree_get t q = expected_node (archive p) q.
 Proof. exact workdir_exact. Qed.
 Print Assumptions C04_workdir_exact.
+
+(* A script whose archive has an entry name that leaves the work directory (../x, /abs/x, $HOME/x)
+   fails in setup: no Setup event, nothing written outside, the exit path of a setup failure. *)
+Theorem C04_escaping_entry_name_fails_setup : forall cfg p s c,
+  names_contained cfg = entry_names_contained -> esc_index p <> None ->
+  exists t, snd (fst (sstep cfg p s c sstate0))
+            = {| ph := Ending VSetupFail SDefers; cwd := []; senv := []; tr := t; wpresent := true;
+                 dstack := []; bgl := []; failedf := false; obs := [] |}.
+Proof. exact escaping_name_fails_setup. Qed.
+Print Assumptions C04_escaping_entry_name_fails_setup.
+
+(* With such names written where they say (the code before the repair) it is false. *)
+Theorem C04_uncontained_entry_names_refuted :
+  exists cfg p ss e t o,
+    names_contained cfg = false /\ names_see_env cfg = true /\
+    snd (fst (sstep cfg p 0 [] sstate0)) = ss /\ In (EvSetup e t o) (obs ss) /\ o <> [].
+Proof. exact uncontained_names_refuted. Qed.
+Print Assumptions C04_uncontained_entry_names_refuted.
 
 (* With the entry names expanded while the environment is still empty (the code before the repair)
    it is false: a file named $WORK/f lands outside the work directory. *)
@@ -128,6 +147,20 @@ Theorem C04_refcount_root : forall cfg progs sched,
   /\ (forall s ss, nth_error (scripts st) s = Some ss -> is_done ss = true -> wpresent ss = false /\ tr ss = []).
 Proof. exact refcount_root. Qed.
 Print Assumptions C04_refcount_root.
+
+(* RunT called without any script (Params.Files non-nil and empty) removes the root at once — what
+   the source does now according to the generated constant; refuted for the code before. *)
+Theorem C04_empty_batch_leaves_nothing : forall cfg,
+  empty_cleans cfg = empty_batch_removes_root -> retain cfg = false ->
+  root_present (sh (start cfg [])) = false /\ root_removals (sh (start cfg [])) = 1
+  /\ cancelled (sh (start cfg [])) = has_cancel cfg.
+Proof. exact empty_batch_leaves_nothing. Qed.
+Print Assumptions C04_empty_batch_leaves_nothing.
+
+Theorem C04_empty_batch_refuted :
+  exists cfg, empty_cleans cfg = false /\ retain cfg = false /\ root_present (sh (start cfg [])) = true.
+Proof. exact empty_batch_refuted. Qed.
+Print Assumptions C04_empty_batch_refuted.
 
 (* With retention (TestWork, -testwork, WorkdirRoot) nothing is removed. *)
 Theorem C04_retention_keeps_everything : forall cfg progs sched,
